@@ -58,7 +58,7 @@ IN_MC = {'mc'}
 IN_INT = {'integrate'}
 WRAPPERS = ['none', 'mc_w', 'int_w', 'cmp_w', 'elem_w', 'condsum_w', 'logit_w', 'catalog_w', 'multsum_w']
 PLACEMENT_FAULTS = ['unknown_column', 'dup_beta_column', 'dup_free_fixed', 'draws_outside_mc', 'rv_outside_integral',
-                    'logit_av_mismatch', 'logit_bad_choice']
+                    'logit_av_mismatch', 'logit_av_missing_key', 'logit_av_extra_key', 'logit_bad_choice']
 EXTRA_FAULTS = ['extra_mc_without_draws', 'extra_integrate_without_rv', 'extra_nested_mc', 'extra_plt_without_panel']
 VARIABLE_FAULTS = {'unknown_column'}          # faults that are themselves a Variable (fit a variable-only hole)
 
@@ -117,7 +117,10 @@ def gen_cases(tier, rng):
         # missing-data code read by the hole
         if wrap == 'none' or tier == 'thorough':
             for entry in entries:
-                if host == 'elem_entry_var' or host == 'condsum_term':
+                if host == 'or_r':      # y | m : the engine does not evaluate m when y != 0
+                    add(group='missing', host=host, wrap=wrap, fault='code_in_unselected_branch', entry=entry, db='plain',
+                        expect='value')
+                elif host == 'elem_entry_var' or host == 'condsum_term':
                     add(group='missing', host=host, wrap=wrap, fault='code_in_unselected_branch', entry=entry, db='plain',
                         expect='value')
                     add(group='missing', host=host, wrap=wrap, fault='code_in_selected_branch', entry=entry, db='plain',
@@ -144,8 +147,8 @@ def gen_cases(tier, rng):
     for name, expect in [('declared_code_read_likelihood', 'exception'), ('default_code_harmless_when_other_declared', 'value'),
                          ('declared_code_unread_column', 'value'), ('declared_code_weight_default_code_harmless', 'value'),
                          ('declared_code_read_expression_after_construction', 'exception'),
-                         ('declared_code_read_simulate', 'exception'), ('declared_code_simulate_default_harmless', 'value'),
-                         ('default_code_read_likelihood', 'exception'), ('default_code_read_simulate', 'exception')]:
+                         ('declared_code_read_simulate', 'exception_or_nan'), ('declared_code_simulate_default_harmless', 'value'),
+                         ('default_code_read_likelihood', 'exception'), ('default_code_read_simulate', 'exception_or_nan')]:
         add(group='declared', host='-', wrap='-', fault=name, entry='biogeme', db='plain', expect=expect)
     # data faults
     for name in ['empty', 'empty_with_columns', 'string_first', 'string_middle', 'string_last', 'string_unused_column',
@@ -166,6 +169,9 @@ def gen_cases(tier, rng):
         for name in ['outside_choice_set_0', 'outside_choice_set_1', 'alpha_outside_choice_set']:
             add(group='nests', host=fn, wrap='-', fault=name, entry='model', db='plain', expect='BiogemeError')
         add(group='valid', host=fn, wrap='-', fault='cross_nested', entry='model', db='plain', expect='number')
+    # a catalog as the root of the formula
+    for entry in ('expr', 'biogeme'):
+        add(group='valid', host='catalog_root', wrap='none', fault='none', entry=entry, db='plain', expect='number')
     # operators evaluated without any database
     for name in ['extra_plt_without_database', 'extra_variable_without_database']:
         add(group='plant', host='-', wrap='none', fault=name, entry='expr', db='none', expect='BiogemeError')
@@ -204,6 +210,7 @@ class Ctx:
         self.panel_outside = panel_outside
         self.keyname = key
         self.condname = cond
+        self.rv_name = 'omega_planted'
 
     def O(self):
         from biogeme.expressions import Variable, Beta
@@ -270,8 +277,9 @@ def build_host(name, S, c):
         'logit_choice': lambda: _bioLogLogit({1: O(), 2: O2(), CODE: O()}, None, S),
         'mc': lambda: MonteCarlo(S * bioDraws('xi_host', 'UNIFORM')),
         'integrate': lambda: Integrate(S * normalpdf(RandomVariable('omega_host')), 'omega_host'),
-        'catalog_selected': lambda: Catalog.from_dict('cat_host', {'one': S, 'two': O()}),
-        'catalog_inner': lambda: Catalog.from_dict('cat_host', {'one': S + O(), 'two': O()}),
+        'catalog_selected': lambda: O2() + Catalog.from_dict('cat_host', {'one': S, 'two': O()}),
+        'catalog_inner': lambda: O2() + Catalog.from_dict('cat_host', {'one': S + O(), 'two': O()}),
+        'catalog_root': lambda: Catalog.from_dict('cat_host', {'one': S, 'two': O()}),
     }
     return table[name]()
 
@@ -298,7 +306,7 @@ def build_wrap(name, inner, c):
     if name == 'logit_w':
         return _bioLogLogit({1: inner, 2: c.O()}, None, c.choice())
     if name == 'catalog_w':
-        return Catalog.from_dict('cat_wrap', {'one': inner, 'two': c.O()})
+        return c.O2() + Catalog.from_dict('cat_wrap', {'one': inner, 'two': c.O()})
     if name == 'multsum_w':
         return bioMultSum([c.O2(), inner])
     raise ValueError(name)
@@ -317,10 +325,16 @@ def build_fault(name, c):
         return Beta('twice', 1.0, None, None, 0) * Beta('twice', 1.0, None, None, 1)
     if name in ('draws_outside_mc', 'draws_inside_mc'):
         return bioDraws('xi_planted', 'UNIFORM')
-    if name in ('rv_outside_integral', 'rv_inside_integral'):
+    if name == 'rv_outside_integral':
         return RandomVariable('omega_planted')
+    if name == 'rv_inside_integral':
+        return RandomVariable(c.rv_name)
     if name == 'logit_av_mismatch':
         return exp(_bioLogLogit({1: c.O(), 2: c.O2()}, {1: c.av(), 3: c.av()}, c.choice()))
+    if name == 'logit_av_missing_key':     # the chosen alternatives (1, 2) have an availability; alternative 3 has none
+        return exp(_bioLogLogit({1: c.O(), 2: c.O2(), 3: c.O()}, {1: c.av(), 2: c.av()}, c.choice()))
+    if name == 'logit_av_extra_key':       # an availability for an alternative without utility
+        return exp(_bioLogLogit({1: c.O(), 2: c.O2()}, {1: c.av(), 2: c.av(), 3: c.av()}, c.choice()))
     if name == 'logit_bad_choice':
         return exp(_bioLogLogit({1: c.O(), 2: c.O2()}, None, Variable('ch3')))
     if name == 'extra_mc_without_draws':
@@ -344,6 +358,8 @@ def expected_value_unselected(case):
         y, z, m = df['y'][i], df['z'][i], df['m'][i]
         if case['host'] == 'elem_entry_var':
             tot += m if df['k'][i] == 1 else y
+        elif case['host'] == 'or_r':
+            tot += 1.0 if (y != 0 or m != 0) else 0.0
         else:
             tot += (m if df['c_off'][i] != 0 else 0.0) + (z if y > 0 else 0.0)
     return tot
@@ -390,6 +406,8 @@ def execute(case):
                   key='k_sel' if fault == 'code_in_selected_branch' else 'k',
                   cond='c_on' if fault == 'code_in_selected_branch' else 'c_off')
 
+        ctx.rv_name = 'omega_host' if case['host'] in IN_INT else 'omega_wrap'
+
         def run():
             d = db.Database('c12', base_frame())
             if case['db'] == 'panel':
@@ -401,7 +419,7 @@ def execute(case):
             elif fault == 'all_inside_trajectory':
                 e = PanelLikelihoodTrajectory(exp(e * 0.01))
             if case['entry'] == 'expr':
-                kw = {}
+                kw = {'gradient': False, 'hessian': False, 'bhhh': False}
                 if fault.startswith('second_without_first'):
                     which = fault.rsplit('_', 1)[1]
                     kw = {'gradient': False, 'hessian': which == 'hessian', 'bhhh': which == 'bhhh'}
@@ -449,10 +467,12 @@ def execute(case):
                 return e.get_value_c(database=d, aggregation=True, prepare_ids=True)
             if f == 'declared_code_read_simulate':
                 bg = BIOGEME(d, {'v': x + neg}, parameters=params(-1))
-                return bg.simulate({})['v'].sum()
+                sim = bg.simulate({})['v']
+                return float('nan') if math.isnan(sim[1]) else sim.sum()
             if f == 'default_code_read_simulate':
                 bg = BIOGEME(d, {'v': x + m}, parameters=params())
-                return bg.simulate({})['v'].sum()
+                sim = bg.simulate({})['v']
+                return float('nan') if math.isnan(sim[1]) else sim.sum()
             if f == 'declared_code_simulate_default_harmless':
                 bg = BIOGEME(d, {'v': x + m}, parameters=params(-1))
                 return bg.simulate({})['v'].sum()
@@ -565,6 +585,9 @@ def judge(case, out):
     o = out.get('outcome')
     where = 'fault=%s host=%s wrap=%s entry=%s' % (case['fault'], case['host'], case['wrap'], case['entry'])
     got = {k: out[k] for k in ('outcome', 'type', 'msg', 'value', 'signal') if k in out}
+    if 'msg' in got:       # several engine threads may fail first: keep the message independent of which one did
+        import re
+        got['msg'] = re.sub(r'data entry \d+', 'data entry N', got['msg'])[:160]
     if exp_ == 'BiogemeError':
         if o == 'BiogemeError':
             return None
@@ -578,6 +601,10 @@ def judge(case, out):
         if o in ('BiogemeError', 'exception'):
             return None
         return ('a read missing-data code fails with an error', 'an exception', got)
+    if exp_ == 'exception_or_nan':      # simulate() reports the observation as NaN instead of raising
+        if o in ('BiogemeError', 'exception') or (o == 'number' and math.isnan(out['value'])):
+            return None
+        return ('a read missing-data code fails with an error', 'an exception (or NaN for that observation)', got)
     if exp_ == 'value':
         if o == 'number' and abs(out['value'] - out['want']) <= 1e-9 * max(1.0, abs(out['want'])):
             return None
@@ -708,13 +735,13 @@ def main():
     seen = set()
     diverse, rest = [], []
     for f in failures:
-        k = (f['case']['fault'], f['case']['entry'], f['got'].get('type') or f['got'].get('outcome'))
+        k = (f['case']['fault'], f['case']['entry'])
         (rest if k in seen else diverse).append(f)
         seen.add(k)
     bound = ('%d cases, each in its own process: %d hosts (every operand position of binary/unary/comparison/Elem/ConditionalSum/'
              'bioMultSum/bioLinearUtility/LogLogit/MonteCarlo/Integrate/Derive/Catalog) x %s wrappers x faults {unknown column, Beta named '
              'like a column, free+fixed Beta of one name, draws outside MonteCarlo, integration variable outside Integrate, '
-             'variable outside the trajectory on panel data, availability keys != utility keys, choice not an alternative, second '
+             'variable outside the trajectory on panel data, availability keys != utility keys (3 shapes), choice not an alternative, second '
              'derivatives without first} + 4 extra operator rules x 2 entry points; fault-free hosts; missing-data code read / in '
              'unselected Elem and ConditionalSum branch / unread column / non-default declared code (9 cases); 15 data faults; '
              '10 model functions x overlapping / leaving nests' % (len(cases), len(HOSTS), 'sampled' if tier == 'quick' else 'all 8'))
